@@ -143,7 +143,26 @@ def extract_parser_table(model) -> ParserTable:
     ct = P.members.get("_COMP_TABLE")
     cval = ct.node.value if isinstance(ct.node, ast.AnnAssign) else ct.node
     comp = {}
-    for k, v in zip(cval.keys, cval.values):
+    pairs = None
+    if isinstance(cval, ast.Dict):
+        pairs = list(zip(cval.keys, cval.values))
+    elif isinstance(cval, ast.Call) and ast.unparse(cval.func) == "dict" and \
+            len(cval.args) == 1 and not cval.keywords:
+        # dict(<sequence of (tag, operator) pairs>), literal or module constant
+        src = cval.args[0]
+        if isinstance(src, ast.Name):
+            key = f"{m.name}:{src.id}"
+            src = model.module_assigns.get(key, (None, None))[1]
+        if isinstance(src, (ast.Tuple, ast.List)) and all(
+                isinstance(x, (ast.Tuple, ast.List)) and len(x.elts) == 2
+                for x in src.elts):
+            pairs = [(x.elts[0], x.elts[1]) for x in src.elts]
+    if pairs is None or not all(
+            isinstance(k, ast.Name) and k.id in tagvars
+            and isinstance(v, ast.Constant) for k, v in pairs):
+        raise AnalysisError("Parser._COMP_TABLE: not a table of "
+                            "(tag, operator string) entries the checker can read")
+    for k, v in pairs:
         comp[tagvars[k.id]] = v.value
     table = ParserTable(consts, lex, comp, [], {}, {}, tagvars, m)
     _extract_postfix(model, P, table)
